@@ -69,6 +69,12 @@ Judge(r) ==
      \o (IF Cardinality({r.ev[i] : i \in 1..Len(r.ev)}) # Len(r.ev) THEN <<"a node has more than one Enter or Leave">> ELSE <<>>)
      \o (IF EnterProj(r.ev) # r.iter THEN <<"Enter sequence differs from the plain iteration">> ELSE <<>>)
      \o (IF r.ev # <<>> /\ r.iter # <<>> /\ r.ev[1] # r.iter[1] THEN <<"iteration does not start with the root">> ELSE <<>>)
+     \* the traversal of a SyntaxTree is ONE tree whose root is the start symbol of its grammar: the root's Leave is the last
+     \* event, and the root is a SourceText / LibraryText node (round-7 seeded change: the tree iterator of library maps started
+     \* from the root's children - a forest without the root)
+     \o (IF r.ev # <<>> /\ r.ev[Len(r.ev)] # -r.ev[1] THEN <<"the traversal is a forest: the Leave of the first node is not the last event">> ELSE <<>>)
+     \o (IF r.ev # <<>> /\ r.ev[1] > 0 /\ r.ev[1] <= Len(r.kinds) /\ r.kinds[r.ev[1]] \notin {"SourceText", "LibraryText"}
+         THEN <<"the traversal of the tree does not start with the SourceText / LibraryText root", r.kinds[r.ev[1]]>> ELSE <<>>)
      \o JudgeProbes(r, 1)
      \* C01
      \o (IF ~tile.ok THEN <<"tokens do not tile the text", ToString(tile.why)>>
